@@ -12,7 +12,7 @@ E1 = "E1 universe enumerator"
 CHECKS = {
  "C01": dict(engine=E1, cat="model_checking", ref="DESIGN.md §3 C01",
    technique="exhaustive enumeration of bounded universe families on the real solver + brute-force rule oracle",
-   text="Every (universe, problem) of the finite families F1/F1'/F2/F3/F4/F5/F9/F10/F11/F12 (F10 = a package first revealed after a decision for another transitive package, under per-package hint patterns; F11 = sequences of soft requirements sharing helper packages; F12 = a soft requirement revealing further candidates of an installed package; <=4 packages, <=3 versions, <=3 simultaneous decorations) is solved by the real Solver under every listed configuration (hints as-is/All/None, sync and controlled-async FIFO/LIFO, activity parameters, debug and release builds) and each returned solution is checked against an independent statement of the package rules; the clause database every solve leaves behind (read-only hook) must satisfy the structural invariant of the two-watched-literal lists and may contain no clause falsified by the final trail. Exhaustive inside the stated families; says nothing about larger universes.",
+   text="Every (universe, problem) of the finite families F1/F1'/F2/F3/F4/F5/F9/F10/F11/F12 (F10 = a package first revealed after a decision for another transitive package, under per-package hint patterns; F11 = sequences of soft requirements sharing helper packages; F12 = a soft requirement revealing further candidates of an installed package; <=4 packages, <=3 versions, <=3 simultaneous decorations) is solved by the real Solver under every listed configuration (hints as-is/All/None, sync and controlled-async FIFO/LIFO, activity parameters, debug and release builds) and each returned solution is checked against an independent statement of the package rules; the clause database every solve leaves behind (read-only hook) must satisfy the structural invariant of the two-watched-literal lists and may contain no clause falsified by the final trail; decision levels never decrease along the trail, no variable is on it twice, learnt clauses only list older antecedents, and the returned solution equals the true solvables of the trail. Exhaustive inside the stated families; says nothing about larger universes.",
    note="Trusted: the harness's Universe->DependencyProvider adapter and the brute-force oracle (self-checked against hand-solved universes on every run)."),
  "C02": dict(engine=E1, cat="model_checking", ref="DESIGN.md §3 C02",
    technique="exhaustive universe enumeration; verdict vs brute-force satisfiability; learnt clauses certified on all assignments",
@@ -48,7 +48,7 @@ CHECKS = {
    note="Schedules are those a single-threaded executor can produce by completing one (or two) parked futures per quiescent point."),
  "C11": dict(engine="E2 completion-order explorer", cat="model_checking", ref="DESIGN.md §3 C11",
    technique="every quiescent point of every explored schedule checked against the set of already-implied candidate requests",
-   text="At every quiescent point of every schedule explored as in C10, every package mentioned by dependency information already delivered to the solver must have its get_candidates request issued (pending or completed); k root packages => k requests in flight at the first quiescent point.",
+   text="At every quiescent point of every schedule explored as in C10, every package mentioned by dependency information already delivered to the solver must have its get_candidates request issued (pending or completed); k root packages => k requests in flight at the first quiescent point; the cache's own union path (sorted candidates of a union on a bare SolverCache) must have the candidates of all member packages in flight when it first blocks.",
    note=""),
  "C12": dict(engine="E3 fault-point enumerator", cat="fault_enumeration", ref="DESIGN.md §3 C12",
    technique="cancellation injected at every poll index k (sticky and transient), sync and under bounded-deviation async schedules",
@@ -56,7 +56,7 @@ CHECKS = {
    note=""),
  "C13": dict(engine="E4 operation-sequence explorer", cat="model_checking", ref="DESIGN.md §3 C13",
    technique="all solve-call histories up to depth d over a 5-problem alphabet on one solver, with every cancellation index, sync and async",
-   text="All sequences of solve calls (length <= 2 quick / 3 thorough) over a per-universe alphabet of 5 problems on ONE solver, optionally with one call cancelled at every poll index; async: [call cancelled at poll k under every schedule with <= 1 deviation, then a second call]. Every call must terminate and agree with a fresh solver, solutions must be valid, metadata obtained earlier is never requested again, and the conflict graph reported by a later Unsolvable call must pass C03's oracle (truthful edges, reachability, proof by enumeration); the async histories are also run with a provider whose sort_candidates fetches dependencies through the cache.",
+   text="All sequences of solve calls (length <= 2 quick / 3 thorough) over a per-universe alphabet of 5 problems on ONE solver, optionally with one call cancelled at every poll index; async: [call cancelled at poll k under every schedule with <= 1 deviation, then a second call]. Every call must terminate and agree with a fresh solver, solutions must be valid, metadata obtained earlier is never requested again, and the conflict graph reported by a later Unsolvable call must pass C03's oracle (truthful edges, reachability, proof by enumeration), and the clause database each later call leaves behind must have intact watch lists and a well-formed trail; the async histories are also run with a provider whose sort_candidates fetches dependencies through the cache.",
    note=""),
  "C14": dict(engine=E1, cat="model_checking", ref="DESIGN.md §3 C14",
    technique="exhaustive enumeration of soft-requirement universes (F5) + brute-force oracle",
@@ -80,7 +80,7 @@ CHECKS = {
    note=""),
  "C20": dict(engine="E4 operation-sequence explorer", cat="model_checking", ref="DESIGN.md §3 C20",
    technique="all SolverCache call sequences of depth d per universe vs reference filter/sort/availability model; re-entrant sort in full solves",
-   text="For every universe of F3 (<= 1/2 decorations) and a slice of F4: every sequence (length 3 quick / 4 thorough) of get_or_cache_* / are_dependencies_available_for calls on a bare SolverCache compared with the reference (partition exactly as filter_candidates answers - also for a provider that answers in reverse listing order -, rank order with favored rotation, same address and no provider call on repeats, availability rule, hints as-is / All / empty list); plus full solves whose sort_candidates calls back into the cache (sync and under completion orders of the controlled executor), hand-stepped in-flight scenarios on a bare cache (availability while a request is pending / after it was dropped, a second caller sharing the pending request, an abandoned request not blocking later ones), every universe again with all packages hinted, the sorted candidates of every union under every completion order of the provider's answers (controlled executor on a bare cache), and one-package universes with 5/21/33/64 candidates x favored position x 3 preference orders.",
+   text="For every universe of F3 (<= 1/2 decorations) and a slice of F4: every sequence (length 3 quick / 4 thorough) of get_or_cache_* / are_dependencies_available_for calls on a bare SolverCache compared with the reference (partition exactly as filter_candidates answers - also for a provider that answers in reverse listing order -, rank order with favored rotation, same address and no provider call on repeats, availability rule, hints as-is / All / empty list); plus full solves whose sort_candidates calls back into the cache (sync and under completion orders of the controlled executor), hand-stepped in-flight scenarios on a bare cache (availability while a request is pending / after it was dropped, a second caller sharing the pending request, an abandoned request not blocking later ones), every operation cancelled at each of its polls and followed by every operation (an interrupted query leaves nothing wrong behind), every universe again with all packages hinted, the sorted candidates of every union under every completion order of the provider's answers (controlled executor on a bare cache), and one-package universes with 5/21/33/64 candidates x favored position x 3 preference orders.",
    note=""),
 }
 
